@@ -498,9 +498,20 @@ package jd
 
 //@ contract verifRenderPatchFaithful
 //@   bounded
+//@   universe a verifNodesPlusPointerDocs(TIER)
+//@   universe b verifNodesPlusPointerDocs(TIER)
 //@   requires validNode(a) && validNode(b) && verifPointerExpressible(a) && verifPointerExpressible(b)
 //@   ensures_bounded ret0
 //@   carries C09
+
+//@ contract verifReadPatchContext
+//@   bounded
+//@   universe a verifPointerDocs(0)
+//@   universe b verifPointerDocs(0)
+//@   universe c verifPointerDocs(0)
+//@   requires validNode(a) && validNode(b) && validNode(c)
+//@   ensures_bounded ret0
+//@   carries C10
 
 //@ contract verifReadPatchFaithful
 //@   bounded
